@@ -145,7 +145,11 @@ ArgsLoop:
 			scanner := bufio.NewScanner(bytes.NewReader(attribContents))
 			for scanner.Scan() {
 				line := scanner.Text()
-				fields := strings.Fields(line)
+				// As in Git, only blanks separate the fields of a
+				// line: other white space may be part of a pattern.
+				fields := strings.FieldsFunc(line, func(r rune) bool {
+					return r == ' ' || r == '\t' || r == '\r'
+				})
 				if len(fields) < 1 {
 					continue
 				}
